@@ -1,11 +1,14 @@
 package checks
 
 import (
+	"errors"
 	"fmt"
 	"strconv"
 	"strings"
 
+	cerrors "github.com/pip-services3-gox/pip-services3-commons-gox/errors"
 	"github.com/pip-services3-gox/pip-services3-expressions-gox/calculator"
+	"github.com/pip-services3-gox/pip-services3-expressions-gox/calculator/functions"
 	"github.com/pip-services3-gox/pip-services3-expressions-gox/calculator/variables"
 	"github.com/pip-services3-gox/pip-services3-expressions-gox/mustache"
 	"github.com/pip-services3-gox/pip-services3-expressions-gox/variants"
@@ -17,6 +20,10 @@ import (
 // C03 — untrusted input never crashes the library: a result or an error, always.
 
 func init() { mon.Register("C03", buildC03) }
+
+type customErr struct{}
+
+func (customErr) Error() string { return "boom: an error type of the application's own" }
 
 var c03Alphabet = []string{"a", "1", ".", "-", "/", "*", "'", "\"", "(", ")", "[", "]", ",", "<", ">", "=", "{", "}", "#", "^", "!", " ", "\n", "é", "ш", "😀"}
 
@@ -113,6 +120,19 @@ func c03Template(c *mon.Case, src string, seed uint64) {
 			panicOrLoop(c, "EvaluateWithVariables", p, fmt.Sprintf("template=%q variables=%q", src, vars))
 			return
 		}
+	}
+	// the same template on an instance that was cleared after use (and not touched in between)
+	if p := mon.Try(func() {
+		t.Clear()
+		if err = t.SetTemplate(src); err == nil {
+			_, err = t.Evaluate()
+		}
+	}); p != nil {
+		panicOrLoop(c, "Clear, SetTemplate, Evaluate", p, fmt.Sprintf("template=%q", src))
+		return
+	}
+	if err != nil {
+		c.Failf("a template accepted on a new instance fails on a cleared one", "template=%q after Clear(): %v", src, err)
 	}
 }
 
@@ -310,5 +330,69 @@ func buildC03(cfg *mon.Config) []*mon.Sub {
 		c03Template(c, data, 0)
 		c03Tokenizers(c, data, 0)
 	})
-	return []*mon.Sub{exh, hostile, tmpl, rnd, codepoints, corpus}
+	failing := &mon.Sub{
+		Name: "failing-application-functions", Rule: "expressions that call a function registered by the application which fails in one of six ways (returns errors.New, a wrapped fmt.Errorf, an ApplicationError, an error value of another type; panics with a string; panics with an error), in 8 positions (alone, as operand, as argument of a default function, in a branch of If that is taken or not, twice), on a new calculator and again after a successful evaluation: Evaluate must return no result and a non-nil error whose Error() text can be read (no panic there either), and the calculator must evaluate correctly afterwards; enumerated",
+		Exhaustive: true, DistinctByGen: true, Floor: 40,
+		Gen: func(emit func(string)) {
+			for kind := 0; kind < 6; kind++ {
+				for _, e := range []string{"boom()", "boom() + 1", "1 + boom()", "Max(1, boom())", "If(a > 0, boom(), 3)", "boom() IS NULL", "boom() + boom()", "Sum(a, b, boom(), 4)"} {
+					emit(strconv.Itoa(kind) + "\x00" + e)
+				}
+			}
+		},
+		Exec: func(c *mon.Case) {
+			c.NonTrivial()
+			parts := strings.SplitN(c.Payload, "\x00", 2)
+			kind, _ := strconv.Atoi(parts[0])
+			src := parts[1]
+			calc := calculator.NewExpressionCalculator()
+			calc.DefaultFunctions().Add(functions.NewDelegatedFunction("boom", func(p []*variants.Variant, o variants.IVariantOperations) (*variants.Variant, error) {
+				switch kind {
+				case 0:
+					return nil, errors.New("boom: plain error")
+				case 1:
+					return nil, fmt.Errorf("boom: wrapped: %w", errors.New("inner"))
+				case 2:
+					return nil, cerrors.NewBadRequestError("", "BOOM", "boom: application error")
+				case 3:
+					return nil, customErr{}
+				case 4:
+					panic("boom: panic with a string")
+				}
+				panic(errors.New("boom: panic with an error"))
+			}))
+			env := &env{names: []string{"a", "b"}, vals: []Val{vInt(7), vInt(3)}}
+			for round := 0; round < 2; round++ {
+				var err error
+				if p := mon.Try(func() { err = calc.SetExpression(src) }); p != nil || err != nil {
+					c.Failf("an expression calling an application function is rejected", "%q: %v %v", src, p, err)
+					return
+				}
+				var res *variants.Variant
+				if p := mon.Try(func() { res, err = calc.EvaluateUsingVariables(env.collection()) }); p != nil {
+					c.FailPanic("Evaluate (application function fails)", p)
+					return
+				}
+				if res != nil || err == nil {
+					c.Failf("Evaluate returns neither or both of result and error", "expression=%q with a failing application function (kind %d) -> result=%v err=%v", src, kind, snap(res), err)
+					return
+				}
+				text := ""
+				if p := mon.Try(func() { text = err.Error(); text += fmt.Sprint(err) }); p != nil || text == "" {
+					c.Failf("the error returned for a failing application function cannot be read", "expression=%q (kind %d): reading the error panics or gives nothing: %v", src, kind, p)
+					return
+				}
+				// and the calculator is still usable
+				if p := mon.Try(func() {
+					if err = calc.SetExpression("a * 10 + b"); err == nil {
+						res, err = calc.EvaluateUsingVariables(env.collection())
+					}
+				}); p != nil || err != nil || snap(res).String() != "int(73)" {
+					c.Failf("a calculator is unusable after an application function failed", "after %q (kind %d): a * 10 + b -> %v %v %v", src, kind, snap(res), err, p)
+					return
+				}
+			}
+		},
+	}
+	return []*mon.Sub{exh, hostile, tmpl, rnd, codepoints, failing, corpus}
 }
